@@ -20,7 +20,7 @@ func init() { vk.InitAsyncNames("_c04_t", "c04h") }
 func genSetup(t *rapid.T) vk.AsyncSetup {
 	s := vk.AsyncSetup{
 		Policy:     rapid.SampledFrom([]string{"Block", "Discard", "DiscardOldest"}).Draw(t, "policy"),
-		Size:       rapid.SampledFrom([]int{100, 100, 101, 113, 130}).Draw(t, "size"),
+		Size:       rapid.SampledFrom([]int{100, 100, 101, 113, 130, 256, 200, 1000}).Draw(t, "size"),
 		ViaRefresh: rapid.SampledFrom([]bool{false, false, true}).Draw(t, "viaRefresh"),
 		Layout:     rapid.SampledFrom([]bool{false, false, true}).Draw(t, "layout"),
 	}
